@@ -38,6 +38,24 @@ def axis_ranges(oned, d, smax=4):
                 if admissible(oned, d, f, l, s): out.append((f, l, s))
     return out
 
+def ev_combos(rank, dims):
+    """range combinations whose extents get a compile-time right-hand side that Fastor evaluates into a temporary first
+    (requires_evaluation_v: trans(), %, inverse ...): whole parent, shifted by one, every second element, mixed"""
+    oned = rank == 1
+    cands = [tuple((0, -1, 1) for d in dims), tuple((1, d, 1) for d in dims), tuple((0, -1, 2) for d in dims),
+             tuple(((0, -1, 2) if k % 2 == 0 else (1, d, 1)) for k, d in enumerate(dims))]
+    out = []
+    for c in cands:
+        if all(admissible(oned, d, *r) for d, r in zip(dims, c)) and all(rsize(oned, d, *r) >= 1 for d, r in zip(dims, c)) and c not in out: out.append(c)
+    return out
+
+def ev_extents(rank, dims):
+    out = []
+    for c in ev_combos(rank, dims):
+        e = tuple(rsize(rank == 1, d, *r) for d, r in zip(dims, c))
+        if e not in out: out.append(e)
+    return out
+
 def gen_dynamic(sd, tr):
     g = LCG(sd * 3 + 4)
     R = []; W = []; O = []
@@ -82,6 +100,10 @@ def gen_dynamic(sd, tr):
                 for op in range(5):
                     for rhs in g.sample([0, 1, 2, 3, 4], 3 if quick else 5):
                         W.append({'rank': rank, 'p': pi, 'dims': dims, 'rs': c, 'op': op, 'rhs': rhs})
+            # right-hand sides that are evaluated into a temporary first (their own operator overloads in every view class)
+            for c in ev_combos(rank, dims):
+                for op in range(5):
+                    W.append({'rank': rank, 'p': pi, 'dims': dims, 'rs': c, 'op': op, 'rhs': 5})
             # overlap: pairs of equal-extent ranges on the same parent
             bysz = {}
             for c in combos:
@@ -147,7 +169,14 @@ def cpp_dynamic(ty, want=('R', 'W', 'O')):
                 L.append('      else if (rhs == 1) F.A(%s) %s S(seq(0,n));' % (va, op))
                 L.append('      else if (rhs == 2) F.A(%s) %s S(seq(0,n))*(T)2 + (T)1;' % (va, op))
                 L.append('      else if (rhs == 3) F.A(%s) %s B(%s);' % (va, op, va))
-                L.append('      else F.A(%s) %s B(%s)*(T)2 + (T)1;' % (va, op, va))
+                L.append('      else if (rhs == 4) F.A(%s) %s B(%s)*(T)2 + (T)1;' % (va, op, va))
+                for e in ev_extents(rank, dims):
+                    m = 1
+                    for x in e: m *= x
+                    el = e[-1]; er = m // el
+                    cond = ' && '.join('F.A(%s).dimension(%d) == %d' % (va, k, x) for k, x in enumerate(e)) if rank > 1 else 'n == %d' % m
+                    L.append('      else if (rhs == 5 && %s) { Tensor<T,%d,%d> Xt; for (int i = 0; i < %d; ++i) for (int j = 0; j < %d; ++j) Xt(j,i) = S.data()[i*%d+j]; F.A(%s) %s trans(Xt); }' % (cond, el, er, er, el, el, va, op))
+                L.append('      else { std::printf("BADRHS %ld\\n", id); }')
                 L.append('    }')
             L.append('    std::printf("F %ld", id); int dmg = 0; for (int i = 0; i < 16; ++i) { if (F.pre[i] != (T)77) ++dmg; if (F.post[i] != (T)77) ++dmg; } std::printf(" %d\\n", dmg);')
             L.append('    vh_line("A", id, F.A.data(), %d); return; }' % n)
